@@ -23,7 +23,8 @@ MANIFEST = {
             'sharing groups; one case in ten is a cycle loop (plain or over '
             'lights) entered under a unit mode other than the lexically '
             'preceding one (routine defined before a units switch, units '
-            'switched inside a routine or an if arm). Loop variables are printed and compared with an '
+            'switched inside a routine or an if arm), one in ten a loop whose '
+            'bounds mention its own loop variable. Loop variables are printed and compared with an '
             'independent interpreter (relative tolerance 1e-9). Sampled.',
     'note': 'Trusted: reference interpreter; iteration order = sorted names '
             'within each listed source, sources in the order written; a light '
@@ -58,7 +59,7 @@ REQUIRED = (['tag:repeat-' + k for k in KINDS]
                'loop:range+', 'loop:interp n=0', 'loop:interp n=1',
                'loop:cycle n=0', 'loop:cycle n=1', 'loop:all n=0',
                'loop:in n=0', 'loop:in n=3', 'tag:loop-vars-printed',
-               'tag:units-crossing'])
+               'tag:units-crossing', 'tag:own-bounds'])
 
 
 def crossing(rng, pop):
@@ -112,12 +113,71 @@ def crossing(rng, pop):
     return prog, {'units-crossing-' + shape, 'units-crossing'}, []
 
 
+def own_bounds(rng, pop):
+    """a loop whose bounds (or count) mention the loop variable itself, which
+    holds a value from before: the bounds are evaluated before the variable
+    gets its first value"""
+    v0 = rng.choice([10, 3, -2, 0, 7])
+
+    def mention(v):
+        return rng.choice([['var', v], ['bin', '*', ['var', v], ['num', 2]],
+                           ['bin', '-', ['var', v], ['num', 4]],
+                           ['bin', '+', ['num', 1], ['var', v]]])
+
+    def lit():
+        return ['num', rng.choice([0, 1, 2, 5, -3, 12])]
+    shape = rng.choice(['range', 'interp', 'interp', 'count', 'cycle',
+                        'light-from', 'again', 'in-routine'])
+    v = 'lx' if shape not in ('range', 'count') else 'li'
+    body = [['print', ['var', v]]]
+    prog = [['assign', v, ['num', v0]]]
+    a, b = (lit(), mention(v)) if rng.random() < 0.6 else (mention(v), lit())
+    if rng.random() < 0.25:
+        a, b = mention(v), mention(v)
+    if shape == 'range':
+        prog.append(['repeat', 'range', {'var': v, 'a': a, 'b': b}, body])
+    elif shape == 'interp':
+        prog.append(['repeat', 'interp', {'n': ['num', rng.choice([1, 2, 3, 4])],
+                                          'var': v, 'a': a, 'b': b}, body])
+    elif shape == 'count':
+        # the count names the variable a nested loop is about to use
+        prog = [['assign', 'li', ['num', rng.choice([2, 3])]],
+                ['repeat', 'count', {'n': ['var', 'li']},
+                 [['print', ['num', 7]]]],
+                ['repeat', 'range', {'var': 'li', 'a': ['num', 1],
+                                     'b': ['bin', '+', ['var', 'li'],
+                                           ['num', 1]]}, body]]
+    elif shape == 'cycle':
+        prog.append(['repeat', 'cycle', {'n': ['num', rng.choice([2, 3, 4])],
+                                         'var': v, 'start': mention(v)}, body])
+    elif shape == 'light-from':
+        prog.append(['repeat', 'all', {'lvar': 'each',
+                                       'with': ['from', v, a, b]}, body])
+    elif shape == 'again':
+        # the same loop statement executed twice: the second time the
+        # variable holds the last value of the first
+        loop = ['repeat', 'interp', {'n': ['num', 3], 'var': v, 'a': lit(),
+                                     'b': ['num', 9]}, body]
+        prog += [['repeat', 'count', {'n': ['num', 2]},
+                  [['assign', v, ['num', v0]], loop]]]
+    else:
+        prog = [['routine', 'sweep', ['rx'],
+                 [['repeat', 'interp', {'n': ['num', 3], 'var': 'rx',
+                                        'a': ['num', 0],
+                                        'b': ['bin', '*', ['var', 'rx'],
+                                              ['num', 2]]},
+                   [['print', ['var', 'rx']]]]], True],
+                ['call', 'sweep', [['num', v0]], None]]
+    return prog, {'own-bounds-' + shape, 'own-bounds'}, []
+
+
 def run_shard(ctx):
     n = N[ctx.tier]
     for i in range(ctx.shard, n, ctx.nshards):
         out = progcheck.one_case(
             ctx, i, PROFILE, 'c04',
-            prog_fn=crossing if i % 10 == 9 else None)
+            prog_fn=crossing if i % 10 == 9 else
+            own_bounds if i % 10 == 4 else None)
         if out is None:
             continue
         looped = out.stats.get('st:repeat', 0) > 0
